@@ -306,8 +306,16 @@ Ltac pfw4 :=
 Lemma mv_parse_entity_def text s g o s' : parse_entity_def text s g = Ok (o, s') -> wfl text s -> mvk text 0 s s'.
 Proof. unfold parse_entity_def. intros H W. run_with pfw4. Qed.
 
+Lemma mv_consume_decl_loop text fuel : forall s s', consume_decl_loop text fuel s = Ok s' -> wfl text s ->
+  mvk text 0 s s'.
+Proof.
+  induction fuel; intros s s' H W; [discriminate|].
+  cbn [consume_decl_loop] in H. run_with pfw4.
+  apply IHfuel in H; [|assumption]. destruct H as (? & ? & ?). mvfin.
+Qed.
+
 Lemma mv_consume_decl text s s' : consume_decl text s = Ok s' -> wfl text s -> mvk text 0 s s'.
-Proof. unfold consume_decl. intros H W. run_with pfw4. Qed.
+Proof. unfold consume_decl. apply mv_consume_decl_loop. Qed.
 
 Lemma mv_parse_doctype_start text s s' : parse_doctype_start text s = Ok s' -> wfl text s -> mvk text 0 s s'.
 Proof. unfold parse_doctype_start. intros H W. run_with pfw4. Qed.
